@@ -81,9 +81,9 @@ def conf_dict_to_tlv(conf_dict: ConfDict) -> list[bytes]:
             tlv_blocks[-1] += last_postface + preface + data
             last_preface, last_postface = preface, postface
 
-    if len(tlv_blocks[-1]) == 0:
-        tlv_blocks.pop()
-    return tlv_blocks
+    # an oversize first entry leaves the initial block empty; an empty block
+    # would be read as the end of the block list
+    return [tlv_block for tlv_block in tlv_blocks if tlv_block]
 
 
 def conf_dict_to_list(conf_dict: ConfDict) -> list[tuple[int, int, bytes]]:
